@@ -9,14 +9,24 @@
 //! `src/a.st`, `src/ab.st`, `lib/util.st.orig`, `src/a/b.st2`).
 //!
 //! Reference model (written from the property's rule, not from the server's version
-//! arithmetic): per file the content of the last successful write / creation and a *stamp* that
-//! changes with every such event; per session and path the (version, stamp) pairs the server
-//! handed out (open, own successful write, own creation). Rules:
+//! arithmetic): per file the content of the last successful write / creation, a *stamp* that
+//! changes with every such event and the number of successful writes since the file came into
+//! being; per session and path the (version, stamp) pairs the server handed out (open, own
+//! successful write, own creation, own rename_symbol). Rules:
 //!  * a write whose expected version the session obtained at stamp s succeeds only if s is
-//!    still the file's stamp (nothing was written to that path since) - whatever happened to
+//!    still the file's stamp (nothing was written to that file since) - whatever happened to
 //!    OTHER entries in between;
 //!  * a write with the guessed version 1 succeeds only if no write succeeded on the file since
-//!    it came into being (initial tree, creation, arrival by rename);
+//!    it came into being (initial tree, creation);
+//!  * rename_entry of a file or of a folder moves content, stamp, write count and everything
+//!    the sessions remember to the new path (the server re-keys its tracked documents and the
+//!    sessions' open paths): a version that was out of date before the rename must be refused at
+//!    the new path as well. Only a path NAME that ceased to exist (deleted, renamed away) and
+//!    is re-created later is under the open finding F32; what the sessions remember is not kept
+//!    for it (exclusion by construction, counted);
+//!  * rename_symbol (the function every content calls is declared in `decl/helper.st`) is a
+//!    write like any other: every file it reports as changed must be its LATEST accepted content
+//!    with the identifier replaced, and versions handed out before it are out of date;
 //!  * a successful write returns expected + 1; open returns the model content;
 //!  * after every call the files on disk are exactly the model's files with the model's
 //!    contents (a refused call changes nothing).
@@ -52,6 +62,9 @@ pub enum Tgt {
     Victim { fallback: String },
     /// The file that was written successfully last; `fallback` if there is none (any more).
     Hot { fallback: String },
+    /// A file that arrived under a new path by the last successful rename_entry (the file
+    /// itself or one below a renamed directory); `fallback` if there is none.
+    Moved { fallback: String },
 }
 
 #[derive(Clone, Debug, Serialize, Deserialize)]
@@ -63,6 +76,9 @@ pub enum HOp {
     Delete { s: u8, path: String },
     Rename { s: u8, path: String, to: String },
     Noise { s: u8, kind: u8, path: Tgt },
+    /// Semantic rename of the function every file calls (declared in `decl/helper.st`): the
+    /// server rewrites every file that references it.
+    RenameSymbol { s: u8, name: u8 },
 }
 
 #[derive(Clone, Debug, Serialize, Deserialize)]
@@ -99,6 +115,40 @@ const EXTRA_FILES: &[&str] = &[
     "pumpx.st",
     "lib.st",
 ];
+
+/// Declares the function all generated contents call; never a target of the other operations.
+pub const DECL_FILE: &str = "decl/helper.st";
+const FN_NAMES: &[&str] = &["HelperA", "HelperB", "Helper", "HelperC", "Helper2"];
+
+fn decl_text(name: &str) -> String {
+    format!("FUNCTION {name} : INT\nVAR_INPUT\n    v : INT;\nEND_VAR\n{name} := v + 1;\nEND_FUNCTION\n")
+}
+
+fn body_text(comment: &str, program: &str, fn_name: &str) -> String {
+    format!("(* {comment} *)\nPROGRAM {program}\nVAR\n    x : INT;\nEND_VAR\nx := {fn_name}(x);\nEND_PROGRAM\n")
+}
+
+/// Replace the identifier `from` (whole identifiers only) by `to`.
+fn replace_ident(text: &str, from: &str, to: &str) -> String {
+    let is_id = |c: char| c.is_alphanumeric() || c == '_';
+    let mut out = String::with_capacity(text.len());
+    let mut i = 0;
+    while i < text.len() {
+        if text[i..].starts_with(from) {
+            let before_ok = text[..i].chars().next_back().map_or(true, |c| !is_id(c));
+            let after_ok = text[i + from.len()..].chars().next().map_or(true, |c| !is_id(c));
+            if before_ok && after_ok {
+                out.push_str(to);
+                i += from.len();
+                continue;
+            }
+        }
+        let c = text[i..].chars().next().unwrap();
+        out.push(c);
+        i += c.len_utf8();
+    }
+    out
+}
 
 const DIRS: &[&str] = &["pump", "lib", "src/a", "pump2", "lib2", "src"];
 
@@ -159,7 +209,7 @@ pub fn case_from_tape(tape: &Tape) -> HistCase {
     for _ in 0..n {
         let s = r.pick(sessions as usize) as u8;
         // first alternative = open, last = write to a "victim" (the tape is biased to 0 / MAX)
-        let op = match r.weighted(&[10, 14, 4, 1, 5, 5, 6, 6]) {
+        let op = match r.weighted(&[10, 14, 4, 1, 5, 6, 6, 3, 8]) {
             0 => HOp::Open { s, path: gen_tgt(&mut r) },
             1 => HOp::Apply {
                 s,
@@ -204,9 +254,17 @@ pub fn case_from_tape(tape: &Tape) -> HistCase {
                 kind: r.weighted(&[1, 1, 1, 3, 3, 1, 2, 3]) as u8,
                 path: gen_noise_tgt(&mut r),
             },
+            7 => HOp::RenameSymbol {
+                s,
+                name: r.pick(FN_NAMES.len()) as u8,
+            },
             _ => HOp::Apply {
                 s,
-                path: Tgt::Victim { fallback: gen_file(&mut r) },
+                path: if r.chance(1, 2) {
+                    Tgt::Victim { fallback: gen_file(&mut r) }
+                } else {
+                    Tgt::Moved { fallback: gen_file(&mut r) }
+                },
                 basis: match r.weighted(&[5, 3, 3]) {
                     0 => Basis::Latest,
                     1 => Basis::Older,
@@ -235,6 +293,8 @@ struct FileM {
     /// an entry whose path is a plain string prefix of this file's path (without containing
     /// the file) was deleted / renamed since this file's content was last established
     prefix_op_since: bool,
+    /// the file reached its current path by rename_entry (itself or an ancestor directory)
+    moved: bool,
 }
 
 struct Model {
@@ -244,6 +304,10 @@ struct Model {
     held: Vec<BTreeMap<String, Vec<(u64, u64)>>>,
     last_removed: Option<String>,
     last_written: Option<String>,
+    /// new paths of the files moved by the last successful rename_entry
+    last_moved: Vec<String>,
+    /// current name of the function declared in DECL_FILE
+    fn_name: String,
 }
 
 fn under(path: &str, dir: &str) -> bool {
@@ -306,6 +370,15 @@ impl Model {
                 Some(p) if self.files.contains_key(p) => p.clone(),
                 _ => fallback.clone(),
             },
+            Tgt::Moved { fallback } => {
+                let live: Vec<&String> = self.last_moved.iter().filter(|p| self.files.contains_key(*p)).collect();
+                if let Some(p) = live.iter().find(|p| {
+                    self.files[**p].saves > 0 || self.held.iter().any(|h| h.contains_key(**p))
+                }) {
+                    return (*p).clone();
+                }
+                live.first().map(|p| (*p).clone()).unwrap_or_else(|| fallback.clone())
+            }
         }
     }
 }
@@ -361,7 +434,7 @@ const PROJECT_REL: &str = "hist/project";
 pub fn strings_of(case: &HistCase) -> Vec<String> {
     let tgt = |t: &Tgt| match t {
         Tgt::Path(p) => p.clone(),
-        Tgt::Victim { fallback } | Tgt::Hot { fallback } => fallback.clone(),
+        Tgt::Victim { fallback } | Tgt::Hot { fallback } | Tgt::Moved { fallback } => fallback.clone(),
     };
     let mut out = Vec::new();
     for op in &case.ops {
@@ -372,6 +445,7 @@ pub fn strings_of(case: &HistCase) -> Vec<String> {
                 out.push(path.clone());
                 out.push(to.clone());
             }
+            HOp::RenameSymbol { .. } => out.push(DECL_FILE.to_string()),
         }
     }
     out
@@ -402,13 +476,21 @@ pub fn run_case(case: &HistCase, scratch: &Path, exclude_f32: bool, probe: &mut 
         held: vec![BTreeMap::new(); nsess],
         last_removed: None,
         last_written: None,
+        last_moved: Vec::new(),
+        fn_name: "Helper".to_string(),
     };
-    for rel in INITIAL_FILES {
+    let mut initial: Vec<(String, String)> = INITIAL_FILES
+        .iter()
+        .enumerate()
+        .map(|(k, rel)| (rel.to_string(), body_text(&format!("initial content of {rel}"), &format!("Init{k}"), "Helper")))
+        .collect();
+    initial.push((DECL_FILE.to_string(), decl_text("Helper")));
+    for (rel, content) in &initial {
+        let (rel, content) = (rel.as_str(), content.clone());
         let path = project.join(rel);
         if let Some(parent) = path.parent() {
             std::fs::create_dir_all(parent).map_err(|e| format!("fixture: mkdir: {e}"))?;
         }
-        let content = format!("(* initial content of {rel} *)\nPROGRAM Init\nEND_PROGRAM\n");
         std::fs::write(&path, &content).map_err(|e| format!("fixture: write: {e}"))?;
         let stamp = m.stamp();
         m.files.insert(
@@ -419,6 +501,7 @@ pub fn run_case(case: &HistCase, scratch: &Path, exclude_f32: bool, probe: &mut 
                 saves: 0,
                 by: "the initial tree".into(),
                 prefix_op_since: false,
+                moved: false,
             },
         );
     }
@@ -436,6 +519,8 @@ pub fn run_case(case: &HistCase, scratch: &Path, exclude_f32: bool, probe: &mut 
     let mut writes = 0u32;
     let mut stale_attempts = 0u32;
     let mut stale_after_prefix_op = 0u32;
+    let mut stale_at_new_path = 0u32;
+    let mut symbol_renames = 0u32;
     let mut conflicts = 0u32;
     let mut spurious_conflicts = 0u32;
     let mut structural_ok = 0u32;
@@ -490,8 +575,10 @@ pub fn run_case(case: &HistCase, scratch: &Path, exclude_f32: bool, probe: &mut 
                 };
                 let expected = pair.map(|(v, _)| v).unwrap_or(1);
                 writes += 1;
-                let content = format!(
-                    "(* write {writes} (call {i}) by session {s} to {p} *)\nPROGRAM W{writes}\nEND_PROGRAM\n"
+                let content = body_text(
+                    &format!("write {writes} (call {i}) by session {s} to {p}"),
+                    &format!("W{writes}"),
+                    &m.fn_name,
                 );
                 let cur = m.files.get(&p).cloned();
                 // is this write based on something older than the file's current content?
@@ -504,6 +591,9 @@ pub fn run_case(case: &HistCase, scratch: &Path, exclude_f32: bool, probe: &mut 
                     stale_attempts += 1;
                     if cur.as_ref().is_some_and(|f| f.prefix_op_since) {
                         stale_after_prefix_op += 1;
+                    }
+                    if cur.as_ref().is_some_and(|f| f.moved) {
+                        stale_at_new_path += 1;
                     }
                 }
                 let r = ide.apply_source(&tokens[s], &p, expected, content.clone(), true);
@@ -545,6 +635,7 @@ pub fn run_case(case: &HistCase, scratch: &Path, exclude_f32: bool, probe: &mut 
                                 saves,
                                 by: format!("call #{i}, apply_source by session {s}"),
                                 prefix_op_since: false,
+                                moved: cur.as_ref().is_some_and(|f| f.moved),
                             },
                         );
                         m.hold(s, &p, (w.version, st));
@@ -569,8 +660,10 @@ pub fn run_case(case: &HistCase, scratch: &Path, exclude_f32: bool, probe: &mut 
             HOp::CreateFile { s, path } => {
                 let s = *s as usize % nsess;
                 writes += 1;
-                let content = format!(
-                    "(* creation {writes} (call {i}) by session {s} of {path} *)\nPROGRAM C{writes}\nEND_PROGRAM\n"
+                let content = body_text(
+                    &format!("creation {writes} (call {i}) by session {s} of {path}"),
+                    &format!("C{writes}"),
+                    &m.fn_name,
                 );
                 match ide.create_entry(&tokens[s], path, false, Some(content.clone()), true) {
                     Ok(res) => {
@@ -584,6 +677,7 @@ pub fn run_case(case: &HistCase, scratch: &Path, exclude_f32: bool, probe: &mut 
                                 saves: 0,
                                 by: format!("call #{i}, create_entry by session {s}"),
                                 prefix_op_since: false,
+                                moved: false,
                             },
                         );
                         if let Some(v) = res.version {
@@ -610,8 +704,8 @@ pub fn run_case(case: &HistCase, scratch: &Path, exclude_f32: bool, probe: &mut 
                         let gone = m.covered(path);
                         for p in &gone {
                             m.files.remove(p);
-                            // the path's history ends here; see F32 for what the server does with
-                            // versions remembered across this boundary
+                            // the path ceases to exist; F32 (open) is about what happens when it is
+                            // re-created, so what the sessions remember for it is dropped
                             for h in m.held.iter_mut() {
                                 if !strict && h.remove(p).is_some() {
                                     excluded += 1;
@@ -637,26 +731,47 @@ pub fn run_case(case: &HistCase, scratch: &Path, exclude_f32: bool, probe: &mut 
                         trace.push(format!("#{i} s{s} rename {path:?} -> {to:?} -> Ok ({})", res.kind));
                         structural_ok += 1;
                         let moved = m.covered(path);
+                        m.last_moved.clear();
                         for p in &moved {
                             let f = m.files.remove(p).unwrap();
                             let np = format!("{to}{}", &p[path.len()..]);
-                            let st = m.stamp();
                             for h in m.held.iter_mut() {
-                                if !strict && h.remove(p).is_some() {
-                                    excluded += 1;
-                                }
+                                // an earlier life of the arrival path comes back: F32's family
                                 if !strict && h.remove(&np).is_some() {
                                     excluded += 1;
                                 }
+                                // the sessions follow the rename (the server re-keys its tracked
+                                // documents and every session's open paths): what they remember for
+                                // the old path is what they remember for the new one. Only the OLD
+                                // name, if it is re-created later, is under F32.
+                                let pairs = if strict { h.get(p).cloned() } else { h.remove(p) };
+                                if let Some(pairs) = pairs {
+                                    if !strict && !pairs.is_empty() {
+                                        excluded += 1;
+                                    }
+                                    let v = h.entry(np.clone()).or_default();
+                                    for pair in pairs {
+                                        if !v.contains(&pair) {
+                                            v.push(pair);
+                                        }
+                                    }
+                                    while v.len() > 4 {
+                                        v.remove(0);
+                                    }
+                                }
                             }
+                            if m.last_written.as_deref() == Some(p.as_str()) {
+                                m.last_written = Some(np.clone());
+                            }
+                            m.last_moved.push(np.clone());
+                            // content, stamp and write count travel with the file: a version that
+                            // was out of date before the rename is out of date after it
                             m.files.insert(
                                 np,
                                 FileM {
-                                    content: f.content,
-                                    stamp: st,
-                                    saves: 0,
-                                    by: format!("call #{i}, rename_entry from {p:?} by session {s}"),
-                                    prefix_op_since: false,
+                                    by: format!("{} (then moved here from {p:?} by call #{i})", f.by),
+                                    moved: true,
+                                    ..f
                                 },
                             );
                         }
@@ -673,6 +788,49 @@ pub fn run_case(case: &HistCase, scratch: &Path, exclude_f32: bool, probe: &mut 
                         m.last_removed = Some(path.clone());
                     }
                     Err(e) => trace.push(format!("#{i} s{s} rename {path:?} -> {to:?} -> {:?}", e.kind())),
+                }
+            }
+            HOp::RenameSymbol { s, name } => {
+                let s = *s as usize % nsess;
+                let new = FN_NAMES[*name as usize % FN_NAMES.len()];
+                if new == m.fn_name {
+                    trace.push(format!("#{i} s{s} rename_symbol to the current name: skipped"));
+                    continue;
+                }
+                let position = serde_json::from_value(json!({"line": 0, "character": 10})).expect("position");
+                match ide.rename_symbol(&tokens[s], DECL_FILE, None, position, new, true) {
+                    Ok(res) => {
+                        symbol_renames += 1;
+                        let old = m.fn_name.clone();
+                        trace.push(format!(
+                            "#{i} s{s} rename_symbol {old} -> {new} -> Ok, rewrote {:?}",
+                            res.changed_files.iter().map(|f| format!("{}@{}", f.path, f.version)).collect::<Vec<_>>()
+                        ));
+                        // every rewritten file must be the LATEST accepted content with the name
+                        // replaced (checked by the disk comparison below); the rewrite is a write
+                        // like any other: versions obtained before it are out of date
+                        for f in &res.changed_files {
+                            if let Some(cur) = m.files.get(&f.path).cloned() {
+                                let st = m.stamp();
+                                m.files.insert(
+                                    f.path.clone(),
+                                    FileM {
+                                        content: replace_ident(&cur.content, &old, new),
+                                        stamp: st,
+                                        saves: cur.saves + 1,
+                                        by: format!("call #{i}, rename_symbol by session {s}"),
+                                        prefix_op_since: false,
+                                        moved: cur.moved,
+                                    },
+                                );
+                                m.hold(s, &f.path, (f.version, st));
+                            }
+                        }
+                        if res.changed_files.iter().any(|f| f.path == DECL_FILE) {
+                            m.fn_name = new.to_string();
+                        }
+                    }
+                    Err(e) => trace.push(format!("#{i} s{s} rename_symbol -> {new} -> {:?}: {e}", e.kind())),
                 }
             }
             HOp::Noise { s, kind, path } => {
@@ -736,6 +894,12 @@ pub fn run_case(case: &HistCase, scratch: &Path, exclude_f32: bool, probe: &mut 
     if stale_after_prefix_op > 0 {
         probe.label("hist_stale_write_after_prefix_sharing_op");
     }
+    if stale_at_new_path > 0 {
+        probe.label("hist_stale_write_to_file_at_its_new_path_after_rename");
+    }
+    if symbol_renames > 0 {
+        probe.label("hist_rename_symbol_ok");
+    }
     if conflicts > 0 {
         probe.label("hist_conflict_returned");
     }
@@ -743,7 +907,7 @@ pub fn run_case(case: &HistCase, scratch: &Path, exclude_f32: bool, probe: &mut 
         probe.label("hist_spurious_conflict_for_fresh_basis");
     }
     if excluded > 0 {
-        probe.excluded("F32: versions remembered for a path are dropped when the path is deleted / renamed away");
+        probe.excluded("F32: versions remembered for a path NAME that ceased to exist (deleted, or renamed away - they travel to the new name) are not kept for a later re-creation of that name");
     }
     if stale_attempts > 0 && structural_ok > 0 {
         let key = serde_json::to_vec(case).unwrap_or_default();
